@@ -419,17 +419,57 @@ def r6_vrs(ctx):
 
 
 def r7_eqsine(ctx):
+    """srs(): on every path to a return, the returned spectrum - and the returned response history when there is one - has been divided
+    by Q exactly once when eqsine is set and not at all otherwise (path enumeration over the option flags, not a pattern on the source)"""
+    from .paths import flag_paths
     fn = ctx.src.func(SRS, "srs")
-    # every return of srs is dominated, when eqsine, by a division of each returned array by Q
-    divs = [n for n in walk_no_nested(fn) if isinstance(n, ast.AugAssign) and isinstance(n.op, ast.Div)
-            and isinstance(n.value, ast.Name) and n.value.id == "Q"]
-    tg = sorted(ast.unparse(d.target) for d in divs)
-    ok = tg.count("SRSmax") == 2 and any("hist" in t for t in tg)
-    ctx.check(ok, "srs: eqsine divides SRSmax on both return paths and the returned history by Q", fn, tg)
-    for d in divs:
-        par = getattr(d, "_vparent", None)
-        ok = isinstance(par, ast.If) and ast.unparse(par.test) == "eqsine"
-        ctx.check(ok, f"srs: `{ast.unparse(d)}` is guarded by eqsine", d)
+
+    def divided(st):
+        """name of the array a statement divides by Q (`X /= Q`, `X = X / Q`), else None"""
+        if isinstance(st, ast.AugAssign) and isinstance(st.op, ast.Div) and utext(st.value) == "Q":
+            return utext(st.target)
+        if isinstance(st, ast.Assign) and len(st.targets) == 1 and isinstance(st.value, ast.BinOp) and isinstance(st.value.op, ast.Div) \
+                and utext(st.value.right) == "Q" and utext(st.value.left) == utext(st.targets[0]):
+            return utext(st.targets[0])
+        return None
+
+    nret = 0
+    seen = set()
+    for eq in (True, False):
+        for gr in (True, False):
+            def truth(test, eq=eq, gr=gr):
+                return {"eqsine": eq, "getresp": gr}.get(utext(test))
+            for trace, end in flag_paths(fn.body, truth, relevant=lambda st: divided(st) is not None):
+                if not isinstance(end, ast.Return) or end.value is None:
+                    continue
+                # loops are opaque in the trace: none of them may divide by Q
+                for st in trace:
+                    if isinstance(st, (ast.For, ast.While, ast.With, ast.Try)) and any(divided(x) for x in ast.walk(st) if isinstance(x, ast.stmt)):
+                        raise Unsupported("a division by Q inside a loop of srs()")
+                rv = [utext(e) for e in (end.value.elts if isinstance(end.value, ast.Tuple) else [end.value])]
+                if "SRSmax" not in rv:
+                    continue
+                nret += 1
+                sig = (eq, gr, id(end), tuple(id(st) for st in trace if divided(st)))
+                if sig in seen:
+                    continue
+                seen.add(sig)
+                cnt = {}
+                for st in trace:
+                    d = divided(st)
+                    if d:
+                        cnt[d] = cnt.get(d, 0) + 1
+                hist = [k for k in cnt if k.startswith("resp[") and "hist" in k]
+                want = 1 if eq else 0
+                ok = cnt.get("SRSmax", 0) == want
+                ctx.check(ok, f"srs (eqsine={eq}, getresp={gr}): the returned SRSmax is divided by Q {'once' if eq else 'not at all'} on the path to "
+                              f"`{ast.unparse(end)}`", end, None if ok else cnt)
+                if "resp" in rv:
+                    n = sum(cnt[k] for k in hist)
+                    ok = n == want
+                    ctx.check(ok, f"srs (eqsine={eq}, getresp={gr}): the returned response history is divided by Q {'once' if eq else 'not at all'}", end,
+                              None if ok else cnt)
+    ctx.check(nret >= 4, f"eqsine rule bound to {nret} (flags, return) paths", fn, nontrivial=False)
 
 
 RULES = [
